@@ -55,6 +55,8 @@ func runC12(r *Run) {
 			c13PostRule(r, fn)
 		}
 	})
+
+	r.NilArgsRule("C12.R7", "client", "jsonclient", "ct")
 }
 
 // ---- R1 ---------------------------------------------------------------------------
